@@ -1,9 +1,172 @@
-(* C14 — property theorems (statements pinned here; proofs in res/OwnProofs.v). *)
+(* C14 — a resource is usable only by its single owner and is closed exactly once.
+   Property theorems (statements pinned here; model in res/Own.v, proofs in res/OwnProofs.v).
+
+   `run h` is the state of the environment's ownership automaton after handling the events h
+   (one `Environment::handle_event` each; `ETerminate p` marks the moment p really terminates on its
+   worker); `new_calls s e` are the EffectBackend calls made while handling e in state s.
+   Every theorem quantifies over EVERY event sequence (every interleaving of every program).
+   The classes KnownF10 / KnownF47 / KnownF48 / KnownF49 are the confirmed defects of the code as it
+   is (known_findings.json); each excluded statement comes with its `_refuted` witness, which is the
+   trace of a real run. *)
 From Coq Require Import List NArith Bool.
 From Quiver Require Import res.Own res.OwnProofs.
 Import ListNotations.
 Open Scope N_scope.
 
-Theorem C14_run_snoc : forall h e, run (h ++ [e]) = step (run h) e.
-Proof. exact run_snoc. Qed.
-Print Assumptions C14_run_snoc.
+(* ---- single owner ---- *)
+
+Theorem C14_owner_map_is_function : forall h r p q,
+  In (r, p) (owner (run h)) -> In (r, q) (owner (run h)) -> p = q.
+Proof. exact owner_map_is_function. Qed.
+Print Assumptions C14_owner_map_is_function.
+
+(* after a send carrying r — at any depth below tuples and closures — the owner is the recipient;
+   nothing else changes *)
+Theorem C14_single_owner_after_send : forall h sender target v r,
+  (carries r v -> lookup r (owner (run (h ++ [ESend sender target v]))) = Some target) /\
+  (~ carries r v -> lookup r (owner (run (h ++ [ESend sender target v]))) = lookup r (owner (run h))).
+Proof. exact owner_after_send. Qed.
+Print Assumptions C14_single_owner_after_send.
+
+Theorem C14_single_owner_after_spawn : forall h caller vals r,
+  ((exists v, In v vals /\ carries r v) ->
+     lookup r (owner (run (h ++ [ESpawn caller vals]))) = Some (next_pid (run h))) /\
+  ((forall v, In v vals -> ~ carries r v) ->
+     lookup r (owner (run (h ++ [ESpawn caller vals]))) = lookup r (owner (run h))).
+Proof. exact owner_after_spawn. Qed.
+Print Assumptions C14_single_owner_after_spawn.
+
+Theorem C14_creator_is_first_owner : forall h p n r,
+  lookup r (owner (run (h ++ [EEffect p (Open n) (ANow (Some (VRes r)))]))) = Some p /\
+  lookup r (owner (run (h ++ [EComplete p (Some (VRes r))]))) = Some p.
+Proof. exact creator_is_first_owner. Qed.
+Print Assumptions C14_creator_is_first_owner.
+
+(* the owner of r changes only by a transfer carrying r, by the backend creating r, or — to no
+   owner — by the cleanup of a reported owner *)
+Theorem C14_ownership_changes_only_by_transfer_creation_cleanup : forall h e r,
+  lookup r (owner (run (h ++ [e]))) <> lookup r (owner (run h)) ->
+  match lookup r (owner (run (h ++ [e]))) with
+  | Some p => match e with
+              | ESend _ t v => t = p /\ carries r v
+              | ESpawn _ vals => next_pid (run h) = p /\ exists v, In v vals /\ carries r v
+              | EEffect q _ _ | EComplete q _ => q = p /\ In r (issued_by e)
+              | _ => False
+              end
+  | None => exists done o, e = EResults done /\ lookup r (owner (run h)) = Some o /\ In o done
+  end.
+Proof. exact ownership_changes_only_by. Qed.
+Print Assumptions C14_ownership_changes_only_by_transfer_creation_cleanup.
+
+(* ---- only the owner reaches the backend ---- *)
+
+Theorem C14_non_owner_never_reaches_backend : forall h e p eff r o,
+  In (CExec p eff) (new_calls (run h) e) -> resource_id eff = Some r ->
+  lookup r (owner (run h)) = Some o -> o = p.
+Proof. exact non_owner_never_reaches_backend. Qed.
+Print Assumptions C14_non_owner_never_reaches_backend.
+
+(* a request by a non-owner changes nothing and makes no backend call (the process gets an error
+   completion: environment.rs report_effect_error) *)
+Theorem C14_denied_request_is_inert : forall h p r n a o,
+  lookup r (owner (run h)) = Some o -> o <> p ->
+  run (h ++ [EEffect p (Op r n) a]) = run h /\ new_calls (run h) (EEffect p (Op r n) a) = [].
+Proof. exact denied_request_is_inert. Qed.
+Print Assumptions C14_denied_request_is_inert.
+
+(* the statement without the `r in dom owner` side condition, outside F47 *)
+Theorem C14_non_owner_never_reaches_backend_strong : forall h e p eff r,
+  ~ KnownF47 (h ++ [e]) ->
+  In (CExec p eff) (new_calls (run h) e) -> resource_id eff = Some r ->
+  lookup r (owner (run h)) = Some p.
+Proof. exact non_owner_never_reaches_backend_strong. Qed.
+Print Assumptions C14_non_owner_never_reaches_backend_strong.
+
+Theorem C14_non_owner_never_reaches_backend_unconditional_refuted :
+  exists h e p eff r, reports_only_terminated (h ++ [e]) /\
+    In (CExec p eff) (new_calls (run h) e) /\ resource_id eff = Some r /\
+    lookup r (owner (run h)) <> Some p /\ KnownF47 (h ++ [e]).
+Proof. exact non_owner_never_reaches_backend_unconditional_refuted. Qed.
+Print Assumptions C14_non_owner_never_reaches_backend_unconditional_refuted.
+
+(* ---- close_resource ---- *)
+
+Theorem C14_close_only_in_cleanup_of_owner : forall h e r,
+  In (CClose r) (new_calls (run h) e) ->
+  exists done p, e = EResults done /\ In p done /\ lookup r (owner (run h)) = Some p.
+Proof. exact close_only_in_cleanup_of_owner. Qed.
+Print Assumptions C14_close_only_in_cleanup_of_owner.
+
+Theorem C14_not_closed_while_owner_alive : forall h e r,
+  reports_only_terminated (h ++ [e]) -> In (CClose r) (new_calls (run h) e) ->
+  exists p, lookup r (owner (run h)) = Some p /\ In p (dead (run h)).
+Proof. exact not_closed_while_owner_alive. Qed.
+Print Assumptions C14_not_closed_while_owner_alive.
+
+Theorem C14_closed_at_most_once : forall h,
+  backend_fresh h -> ~ KnownF48 h -> NoDup (closes (log (run h))).
+Proof. exact closed_at_most_once. Qed.
+Print Assumptions C14_closed_at_most_once.
+
+Theorem C14_closed_at_most_once_unconditional_refuted :
+  exists h, reports_only_terminated h /\ backend_fresh h /\ KnownF48 h /\
+            ~ NoDup (closes (log (run h))).
+Proof. exact closed_at_most_once_unconditional_refuted. Qed.
+Print Assumptions C14_closed_at_most_once_unconditional_refuted.
+
+(* when the environment learns that p terminated, everything p owns is closed, and p owns nothing *)
+Theorem C14_cleanup_closes_everything : forall h done p r,
+  In p done -> lookup r (owner (run h)) = Some p ->
+  In (CClose r) (new_calls (run h) (EResults done)) /\
+  forall r', lookup r' (owner (run (h ++ [EResults done]))) <> Some p.
+Proof. exact cleanup_closes_everything. Qed.
+Print Assumptions C14_cleanup_closes_everything.
+
+(* safety form of "every resource owned at termination is eventually closed": in ANY reachable
+   state a terminated process owns nothing, outside F10 (never reported, or given the handle after
+   a report) *)
+Theorem C14_closed_after_termination : forall h p r,
+  ~ KnownF10 h p r -> In p (dead (run h)) -> lookup r (owner (run h)) <> Some p.
+Proof. exact closed_after_termination. Qed.
+Print Assumptions C14_closed_after_termination.
+
+Theorem C14_closed_after_termination_unconditional_refuted :
+  exists h p r, reports_only_terminated h /\ backend_fresh h /\ quiescent (run h) /\
+                In p (dead (run h)) /\ lookup r (owner (run h)) = Some p /\ KnownF10 h p r.
+Proof. exact closed_after_termination_refuted. Qed.
+Print Assumptions C14_closed_after_termination_unconditional_refuted.
+
+(* ---- who may transfer (F49) ---- *)
+
+Theorem C14_transfer_only_by_owner_refuted :
+  exists h e q r o, initiates e q r /\ lookup r (owner (run h)) = Some o /\ o <> q /\
+                    ~ In o (dead (run h)) /\ lookup r (owner (run (h ++ [e]))) <> Some o /\
+                    KnownF49 (h ++ [e]).
+Proof. exact transfer_only_by_owner_refuted. Qed.
+Print Assumptions C14_transfer_only_by_owner_refuted.
+
+(* outside F49 a resource leaves its owner only by the owner's own send/spawn, by the owner's
+   cleanup, or by the backend issuing the same id again *)
+Theorem C14_ownership_leaves_only_by_owner_action : forall h e r o,
+  ~ KnownF49 (h ++ [e]) ->
+  lookup r (owner (run h)) = Some o -> lookup r (owner (run (h ++ [e]))) <> Some o ->
+  initiates e o r \/ (exists done, e = EResults done /\ In o done) \/ In r (issued_by e).
+Proof. exact ownership_leaves_only_by_owner_action. Qed.
+Print Assumptions C14_ownership_leaves_only_by_owner_action.
+
+(* ---- the model's log is append-only (gives `new_calls` its meaning) ---- *)
+
+Theorem C14_log_extends : forall h e, log (run (h ++ [e])) = log (run h) ++ new_calls (run h) e.
+Proof. exact run_log_extends. Qed.
+Print Assumptions C14_log_extends.
+
+(* ---- non-vacuity: one history meets every hypothesis used above and exercises every handler ---- *)
+
+Theorem C14_nonvacuity :
+  reports_only_terminated good_history /\ backend_fresh good_history /\
+  ~ KnownF47 good_history /\ ~ KnownF48 good_history /\ ~ KnownF49 good_history /\
+  ~ KnownF10 good_history 2 1 /\ In 2 (dead (run good_history)) /\
+  closes (log (run good_history)) = [1] /\
+  log (run good_history) = [CExec 0 (Open 1); CExec 1 (Op 1 0); CExec 2 (Op 1 0); CClose 1].
+Proof. exact good_history_meets_all_hypotheses. Qed.
+Print Assumptions C14_nonvacuity.
